@@ -436,8 +436,15 @@ func TestC17(t *testing.T) {
 							}
 						}
 						ev.Sample("split-"+format, map[string]any{"format": format, "document": clip(string(doc), 300), "bytes": len(doc), "schedules": "every split point k: chunks [k] then the rest"})
-						// one-byte reads and halves
-						for _, ch := range [][]int{ones(len(doc)), {len(doc) / 2}, {1, 0, 0, 1, 0, 2}} {
+						// one-byte reads and halves; for the two block formats also a long run of empty reads in the middle of
+						// a block (the block readers wait for their bytes; a line scanner may give up on such a stream, which
+						// is its documented limit, not a matter of this property)
+						scheds := [][]int{ones(len(doc)), {len(doc) / 2}, {1, 0, 0, 1, 0, 2}}
+						if format == "stl" || format == "ts" {
+							run := append([]int{len(doc)/2 + 3}, make([]int, 150)...)
+							scheds = append(scheds, append(run, 5), append(append([]int{7}, make([]int, 101)...), 1))
+						}
+						for _, ch := range scheds {
 							c.Chunks, c.WithEOF = ch, false
 							ev.CaseH(true, mix(strHash(string(doc)), uint64(len(ch)), 77), "one-byte-or-half", "format-"+format)
 							verdict(t, "C17", "c17", c, checkC17)
